@@ -617,6 +617,43 @@ example : ∃ e ∈ G.ctorTable, e.key = "CX" ∧ e.usesCV = true ∧ (e.generic
     argCheck e.argSpec .absent = .ok () := by
   refine ⟨_, List.mem_of_getElem? (i := 30) rfl, by decide, by decide, by decide, by decide⟩
 
+/-- **Expansion of a multi-controlled gate object reads the control bits in LISTED order** (`Gate.get_qobj(dims=[2]*N)`,
+`propagators(expand=True)`: regenerated rule `Gen.G.gateGetQobj`, model `GateCtor.expanded`).  For an object of a class
+that reads control_value (ControlledGate with any target class, CX, CY, CRX, …) storing the controls `cs` — by
+`ctor_controlled_anatomy` exactly as they were listed —, target `t`, `cs ++ [t]` duplicate-free and `< N`, value `v < 2^m`:
+the expanded operator is `Tg.embed (ctrlN m v U)` on the qubits `(cs…, t)`, i.e. by `controlled_apply` it applies `U` to `t`
+exactly when the qubits `cs`, FIRST LISTED MOST SIGNIFICANT, hold `v`; this is the very operator the function
+`controlled_gate(U, cs, [t], N, v)` returns (`controlled_gate_model`, same right-hand side), and it is unitary when `U` is.
+Storing the controls in any other order than listed (seeded C09-16: sorted) changes `cs` here, hence the operator. -/
+theorem ctor_controlled_expanded (ct : Which) (e : ClassInfo) (r : Req) (o : Obj) (cs : List ℕ) (t N v : ℕ)
+    (U : Matrix (Fin 2) (Fin 2) ℂ)
+    (hu : e.usesCV = true) (hg : (e.generic && e.fixedGuard) = false) (ha : argCheck e.argSpec r.arg = .ok ())
+    (hc : o.controls = some (cs.map Int.ofNat)) (ht : o.targets = some [Int.ofNat t]) (hcv : o.cv = some (v : Int))
+    (hn : (cs ++ [t]).Nodup) (hr : ∀ q ∈ cs ++ [t], q < N) (hv : v < 2 ^ cs.length) :
+    G.gateGetQobj = "expand_operator(compact, dims, controls + targets)" ∧
+    ∃ res R, compact ct e r o = .ok (.block res) ∧ expanded N o res = .ok R ∧ R.K = N ∧
+      (Matrix.of fun x y : St N => evalC U (R.entry (bitsL x) (bitsL y))) =
+        (tgQ N (cs ++ [t]) cs.length (by simp) hn hr).embed (ctrlN cs.length v U) := by
+  refine ⟨by decide, ?_⟩
+  obtain ⟨res, R, h1, h2, h3, h4⟩ := expanded_spec ct e r o cs t N v hu hg ha hc ht hcv hn hr hv
+  refine ⟨res, R, h1, h2, h3, ?_⟩
+  ext x y
+  have bx : ∀ z : St N, Bits N (bitsL z) := fun z =>
+    ⟨bitsL_length z, fun e he => by
+      simp only [bitsL, List.mem_ofFn] at he; obtain ⟨i, rfl⟩ := he; exact (z i).isLt⟩
+  rw [Matrix.of_apply, h4 _ _ (bx x) (bx y), spec_eq_embed N cs t v U hn hr x y]
+
+/-- ControlledGate(controls=[2, 0], targets=[1], control_value=2, target_gate=X) on 3 qubits: X on qubit 1 between
+|1,·,0⟩ states (qubit 2 = 1, qubit 0 = 0), identity on |0,·,1⟩ — the witness of seeded C09-16 -/
+example : (G.ctorTable[36]?.map fun e =>
+      match compact .targets e ⟨.list [1], .list [2, 0], .absent, .int 2⟩ ⟨some [1], some [2, 0], some 2⟩ with
+      | .ok (.block res) =>
+        (match expanded 3 ⟨some [1], some [2, 0], some 2⟩ res with
+          | .ok R => R.K == 3 && R.entry [0, 0, 1] [0, 1, 1] == .u 0 1 && R.entry [1, 0, 0] [1, 0, 0] == .one
+              && R.entry [1, 0, 0] [1, 1, 0] == .zero
+          | .error _ => false)
+      | _ => false) = some true := by decide
+
 /-- a control value outside the blocks is refused at `get_compact_qobj` (IndexError of `controlled_gate`), None is a
 TypeError; a negative value −k (k ≤ 2^m) selects block 2^m − k (Python indexing, `controlled_gate_shapes`) -/
 theorem ctor_controlled_value_refused (ct : Which) (e : ClassInfo) (r : Req) (o : Obj) (cs : List Int)
